@@ -130,6 +130,9 @@ where
         F: FnOnce(&T) -> R,
     {
         loop {
+            #[cfg(folo_verif)]
+            crate::verif::point("rl.try_read");
+
             // If the read fails, we get our `f` callback returned back to us.
             match regional_state.try_with_value(f) {
                 Ok(result) => return result,
@@ -375,12 +378,18 @@ where
         // and wait for them to finish before we do anything.
 
         loop {
+            #[cfg(folo_verif)]
+            crate::verif::point("rl.init.load");
+
             let reader = self.value.load();
 
             if let Some(ref value) = *reader {
                 // Something is already happening.
 
                 if let RegionalValue::Initializing(manual_reset_event) = &**value {
+                    #[cfg(folo_verif)]
+                    crate::verif::block_until("rl.init.wait", &|| manual_reset_event.wait0());
+
                     // We are waiting for someone else to finish initializing.
                     manual_reset_event.wait();
                 }
@@ -392,6 +401,9 @@ where
             // Nothing is happening. We may be the first to start initializing.
             let attempt_signal = Arc::new(ManualResetEvent::new(EventState::Unset));
             let attempt = RegionalValue::<T>::Initializing(Arc::clone(&attempt_signal));
+
+            #[cfg(folo_verif)]
+            crate::verif::point("rl.init.cas");
 
             let previous_value = self.value.compare_and_swap(reader, Some(Arc::new(attempt)));
 
@@ -412,6 +424,10 @@ where
             });
 
             let new_value = RegionalValue::Ready(initializer());
+
+            #[cfg(folo_verif)]
+            crate::verif::point("rl.init.store");
+
             self.value.store(Some(Arc::new(new_value)));
 
             // We are done initializing. Notify all waiters that they can continue.
@@ -428,6 +444,9 @@ where
     // constantly resetting the value, so the conflict resolver will never finish.
     #[cfg_attr(test, mutants::skip)]
     fn set(&self, value: T) {
+        #[cfg(folo_verif)]
+        crate::verif::point("rl.set");
+
         self.value
             .store(Some(Arc::new(RegionalValue::Ready(value))));
     }
